@@ -343,6 +343,26 @@ func c14BowlSessions(env *Env, c *C14Case, old, nw []byte) {
 	if err1 != nil || err2 != nil {
 		return
 	}
+	if r.Intn(3) == 0 {
+		// the file on disk is LONGER than the old container says (something appended to it since) and longer than
+		// the new content, which is at least as long as the recorded size: the overlay is computed against what is
+		// on disk, and what is on disk afterwards must still be exactly the new content
+		disk := append([]byte(nil), old...)
+		if len(disk) <= len(nw) {
+			disk = append(disk, r.Bytes(len(nw)-len(disk)+1+r.Intn(5000))...)
+		}
+		rec := int64(r.Intn(len(nw) + 1))
+		if rec > int64(len(old)) {
+			rec = int64(len(old))
+		}
+		for _, f := range tc.Files {
+			if f.Path == "f.bin" {
+				f.Size = rec
+			}
+		}
+		os.WriteFile(dir+"/f.bin", disk, 0o644)
+		env.R.Count("bowl-sessions:disk-file-longer-than-recorded", 1)
+	}
 	mk := func() (bowl.Bowl, error) {
 		return bowl.NewOverlayBowl(bowl.OverlayBowlParams{SourceContainer: sc, TargetContainer: tc, OutputFolder: dir, StageFolder: stage, Consumer: quietConsumer})
 	}
